@@ -7,7 +7,10 @@ which Proofs/SweepRKNProofs.v / Proofs/SweepMultistepProofs.v prove the stage / 
 
 * RungeKuttaNystrom: the real `particles`, `fields`, `acceleration` data types (get_full_f accepts nothing else) with
   dtype=object arrays of fractions.Fraction; a small particle problem whose eval_f / build_f / boris_solver are
-  rational functions sensitive to every argument and to both times the sweeper passes; the sweeper's float tables
+  rational functions sensitive to every argument — including the charges q and masses m of the particle OBJECT
+  they are handed (per particle different, != 1) — and to both times the sweeper passes; the node objects are
+  either arbitrary particles with their own q, m or come from the real predict() (unit-charge zero particles, as
+  in every controller run); q and m of every node and of uend are observables; the sweeper's float tables
   (coll.nodes, QI = coll.Qmat, Qx = coll_bar.Qmat) are replaced by their exact Fraction images (or, for the
   explicit branch, by injected full random rational matrices: entries on/above the diagonal must not be read).
   Classes: the shipped RKN and Velocity_Verlet and seeded subclasses of RungeKuttaNystrom with random dyadic
@@ -68,6 +71,11 @@ def fxl(a):
     return [fx(x) for x in a]
 
 
+def fql(a):
+    """charges / masses of a particle object: predict() creates float arrays (q = m = 1.0); exact images"""
+    return [x if isinstance(x, F) else F(float(x)) for x in a]
+
+
 def eval_cases(ck, name, imports, ctype, checker, cases, chunk=40, workers=4):
     """compile the generated case files; returns list of kernel verdicts (-1 = agree) or None"""
     files = []
@@ -94,19 +102,19 @@ def eval_cases(ck, name, imports, ctype, checker, cases, chunk=40, workers=4):
 PAR_KEYS = ('lamE', 'kE', 'cE', 'bB', 'cB', 'g', 'd', 's', 'r')
 
 
-def p_eval(par, pos, vel, t):
-    """fields of the test problem: (elec, magn)"""
-    return ([l * p + k * v + c * t for l, k, c, p, v in zip(par['lamE'], par['kE'], par['cE'], pos, vel)],
+def p_eval(par, qm, pos, vel, t):
+    """fields of the test problem: (elec, magn); qm = (charges, masses) of the particle object handed over"""
+    return ([q * (l * p + k * v) + m * c * t for l, k, c, p, v, q, m in zip(par['lamE'], par['kE'], par['cE'], pos, vel, qm[0], qm[1])],
             [b + c * t for b, c in zip(par['bB'], par['cB'])])
 
 
-def p_build(par, fld, vel, t):
-    return [e + g * v * b + d * t for e, b, g, d, v in zip(fld[0], fld[1], par['g'], par['d'], vel)]
+def p_build(par, fld, qm, vel, t):
+    return [q / m * (e + g * v * b) + d * t for e, b, g, d, v, q, m in zip(fld[0], fld[1], par['g'], par['d'], vel, qm[0], qm[1])]
 
 
-def p_boris(par, c, dt, fo, fn, p0, v0):
-    return [v + dt * (eo * F(1, 4) + en * F(3, 4)) + cc + s * dt * v * (bo - 2 * bn) + r * dt * p
-            for v, p, eo, en, bo, bn, cc, s, r in zip(v0, p0, fo[0], fn[0], fo[1], fn[1], c, par['s'], par['r'])]
+def p_boris(par, c, dt, fo, fn, qm, p0, v0):
+    return [v + q / m * dt * (eo * F(1, 4) + en * F(3, 4)) + cc + s * dt * v * (bo - 2 * bn) + r * dt * p
+            for v, p, eo, en, bo, bn, cc, s, r, q, m in zip(v0, p0, fo[0], fn[0], fo[1], fn[1], c, par['s'], par['r'], qm[0], qm[1])]
 
 
 def _ptypes():
@@ -126,11 +134,13 @@ class ParticleProb(Problem):
         self.par = {k: [F(x) for x in par[k]] for k in PAR_KEYS}
         self.calls = []
 
-    def mk_u(self, pos, vel):
+    def mk_u(self, pos, vel, q, m):
         particles, _, _ = _ptypes()
         u = particles(self.init, val=None)
         u.pos[:] = [F(x) for x in pos]
         u.vel[:] = [F(x) for x in vel]
+        u.q = np.array([F(x) for x in q], dtype=object)
+        u.m = np.array([F(x) for x in m], dtype=object)
         return u
 
     def mk_f(self, fld):
@@ -142,19 +152,19 @@ class ParticleProb(Problem):
 
     def eval_f(self, u, t):
         self.calls.append(('eval_f', F(t)))
-        return self.mk_f(p_eval(self.par, fxl(u.pos), fxl(u.vel), F(t)))
+        return self.mk_f(p_eval(self.par, (fql(u.q), fql(u.m)), fxl(u.pos), fxl(u.vel), F(t)))
 
     def build_f(self, f, part, t):
         _, _, acceleration = _ptypes()
         a = acceleration(self.init)
-        a[:] = p_build(self.par, (fxl(f.elec), fxl(f.magn)), fxl(part.vel), F(t))
+        a[:] = p_build(self.par, (fxl(f.elec), fxl(f.magn)), (fql(part.q), fql(part.m)), fxl(part.vel), F(t))
         return a
 
     def boris_solver(self, c, dt, old_fields, new_fields, old_parts):
         particles, _, _ = _ptypes()
         vel = particles.velocity(self.init)
         vel[:] = p_boris(self.par, fxl(c), F(dt), (fxl(old_fields.elec), fxl(old_fields.magn)),
-                         (fxl(new_fields.elec), fxl(new_fields.magn)), fxl(old_parts.pos), fxl(old_parts.vel))
+                         (fxl(new_fields.elec), fxl(new_fields.magn)), (fql(old_parts.q), fql(old_parts.m)), fxl(old_parts.pos), fxl(old_parts.vel))
         return vel
 
 
@@ -241,17 +251,23 @@ def build_rkn_case(rng, which):
     L.status.unlocked = True
     L.status.sweep = rng.choice([0, 1])
     P = L.prob
+    rq = lambda: [F(rng.choice([-3, -2, -1, 2, 3, 4]), rng.choice([1, 2, 3])) for _ in range(dim)]      # charges: per particle different, != 1 mostly
+    rm = lambda: [F(rng.choice([1, 2, 3, 4, 5]), rng.choice([1, 2, 3])) for _ in range(dim)]             # masses: positive
+    from_predict = rng.random() < 0.5
     for m in range(M + 1):
-        L.u[m] = P.mk_u([rfrac(rng, -5, 5) for _ in range(dim)], [rfrac(rng, -5, 5) for _ in range(dim)])
+        L.u[m] = P.mk_u([rfrac(rng, -5, 5) for _ in range(dim)], [rfrac(rng, -5, 5) for _ in range(dim)], rq(), rm())
         L.f[m] = P.mk_f(([rfrac(rng, -5, 5) for _ in range(dim)], [rfrac(rng, -5, 5) for _ in range(dim)]))
+    if from_predict:      # node objects as in every controller run: the REAL predict() (zero particles with q = m = 1)
+        sw.predict()
     meta = dict(part='RKN', which=which, cls=cls.__name__, M=M, dim=dim, implicit=bool(sw.coll.implicit), inject=inject,
-                gsa=bool(sw.coll.globally_stiffly_accurate), dt=str(dt), t0=str(t0), zero_kE=zero_kE, sweep=L.status.sweep)
+                gsa=bool(sw.coll.globally_stiffly_accurate), dt=str(dt), t0=str(t0), zero_kE=zero_kE, sweep=L.status.sweep, nodes_from_predict=from_predict)
     return L, pp, tab, meta
 
 
 def rkn_snapshot(L):
     M = L.sweep.coll.num_nodes
     return dict(p=[fxl(L.u[m].pos) for m in range(M + 1)], v=[fxl(L.u[m].vel) for m in range(M + 1)],
+                q=[fql(L.u[m].q) for m in range(M + 1)], m=[fql(L.u[m].m) for m in range(M + 1)],
                 fe=[fxl(L.f[m].elec) for m in range(M + 1)], fm=[fxl(L.f[m].magn) for m in range(M + 1)])
 
 
@@ -261,13 +277,16 @@ def rkn_run_real(L):
     sw.compute_end_point()
     after = rkn_snapshot(L)
     after['uend'] = (fxl(L.uend.pos), fxl(L.uend.vel))
+    after['uend_qm'] = (fql(L.uend.q), fql(L.uend.m))
     after['uend_is_last'] = L.uend is L.u[-1]
     after['updated'] = L.status.updated
     M = sw.coll.num_nodes
     out = sum(after['p'][1:], []) + sum(after['v'][1:], [])
     for m in range(M + 1):
+        out += after['q'][m] + after['m'][m]
+    for m in range(M + 1):
         out += after['fe'][m] + after['fm'][m]
-    out += after['uend'][0] + after['uend'][1]
+    out += after['uend'][0] + after['uend'][1] + after['uend_qm'][0] + after['uend_qm'][1]
     return out, after
 
 
@@ -277,7 +296,7 @@ def rkn_coq_case(L, pp, meta, before, expected):
               'k_nodes := %s' % qcl(list(sw.coll.nodes)), 'k_QI := %s' % qcm(sw.QI.tolist()), 'k_Qx := %s' % qcm(sw.Qx.tolist()),
               'k_impl := %s' % coq_bool(bool(sw.coll.implicit)), 'k_dim := %d%%nat' % meta['dim']]
     fields += ['k_%s := %s' % (k, qcl(pp[k])) for k in PAR_KEYS]
-    fields += ['k_p := %s' % qcm(before['p']), 'k_v := %s' % qcm(before['v']), 'k_fe := %s' % qcm(before['fe']), 'k_fm := %s' % qcm(before['fm'])]
+    fields += ['k_p := %s' % qcm(before['p']), 'k_v := %s' % qcm(before['v']), 'k_q := %s' % qcm(before['q']), 'k_m := %s' % qcm(before['m']), 'k_fe := %s' % qcm(before['fe']), 'k_fm := %s' % qcm(before['fm'])]
     return '({| %s |}, %s)' % ('; '.join(fields), qcl(expected))
 
 
@@ -295,15 +314,23 @@ def rkn_oracle(L, pp, tab, meta, before, after):
     fn = [(after['fe'][m], after['fm'][m]) for m in range(M + 1)]
     fo = [(before['fe'][m], before['fm'][m]) for m in range(M + 1)]
     x0, v0 = before['p'][0], before['v'][0]
-    if xn[0] != x0 or vn[0] != v0:
+    qm0 = (before['q'][0], before['m'][0])
+    if xn[0] != x0 or vn[0] != v0 or (after['q'][0], after['m'][0]) != qm0:
         fails.append(('u0_changed',))
+    # every stage and the end value carry the charges / masses of u0 (the node OBJECT is replaced by the copy of u[0]),
+    # and the stage form below is evaluated with them
+    for m in range(1, M + 1):
+        if (after['q'][m], after['m'][m]) != qm0:
+            fails.append(('stage_attributes', m))
+    if after['uend_qm'] != qm0:
+        fails.append(('uend_attributes',))
     if not tab['shape_ok']:
         fails.append(('table_shape',))
     if not after['updated']:
         fails.append(('status_updated',))
     tn = lambda j: t0 + dt * c[j]
     if not meta['implicit']:
-        acc = [None] + [p_build(par, fn[j], vn[j], tn(j)) for j in range(1, M + 1)]
+        acc = [None] + [p_build(par, fn[j], qm0, vn[j], tn(j)) for j in range(1, M + 1)]
         for m in range(1, M + 1):
             for x in range(dim):
                 if xn[m][x] != x0[x] + dt * c[m] * v0[x] + dt * dt * sum(Qx[m, j] * acc[j][x] for j in range(1, m)):
@@ -311,8 +338,8 @@ def rkn_oracle(L, pp, tab, meta, before, after):
                 if vn[m][x] != v0[x] + dt * sum(QI[m, j] * acc[j][x] for j in range(1, m)):
                     fails.append(('stage_velocity', m, x))
             if m < M:
-                if fn[m] != p_eval(par, xn[m], vn[m], tn(m)):       # the stage is evaluated at its own node time
-                    fails.append(('stage_fields_own_time' if fn[m] == p_eval(par, xn[m], vn[m], tn(m - 1)) else 'stage_fields', m))
+                if fn[m] != p_eval(par, qm0, xn[m], vn[m], tn(m)):       # the stage is evaluated at its own node time, with u0's q, m
+                    fails.append(('stage_fields_own_time' if fn[m] == p_eval(par, qm0, xn[m], vn[m], tn(m - 1)) else 'stage_fields', m))
         if fn[M] != fo[M]:
             fails.append(('last_fields_touched',))
         if fn[0] != fo[0]:
@@ -332,7 +359,7 @@ def rkn_oracle(L, pp, tab, meta, before, after):
                         if after['uend'][1][x] != v0[x] + dt * sum(F(float(w[j - 1])) * acc[j][x] for j in range(1, M)):
                             fails.append(('end_velocity', x))
     else:
-        F0 = p_eval(par, x0, v0, t0)
+        F0 = p_eval(par, qm0, x0, v0, t0)
         for m in range(0, M + 1):       # L.f[0] is re-evaluated and copied to every node; L.f[3] is scratch space of later stages when M > 3
             if fn[m] != F0 and (m != 3 or M == 3):
                 fails.append(('implicit_fields', m))
@@ -340,14 +367,14 @@ def rkn_oracle(L, pp, tab, meta, before, after):
             tend = t0 + dt
             z = [F(0)] * dim
             x1 = [x0[x] + dt * c[1] * v0[x] for x in range(dim)]
-            a1 = p_build(par, F0, v0, tn(1))
+            a1 = p_build(par, F0, qm0, v0, tn(1))
             x2 = [x0[x] + dt * c[2] * v0[x] + dt * dt * Qx[2, 1] * a1[x] for x in range(dim)]
-            v2 = p_boris(par, z, dt, F0, p_eval(par, x2, v0, tend), x0, v0)
-            a2 = p_build(par, F0, v2, tn(2))
+            v2 = p_boris(par, z, dt, F0, p_eval(par, qm0, x2, v0, tend), qm0, x0, v0)
+            a2 = p_build(par, F0, qm0, v2, tn(2))
             x3a = [x0[x] + dt * c[3] * v0[x] + dt * dt * Qx[3, 1] * a1[x] for x in range(dim)]
-            v3a = p_boris(par, z, dt, F0, p_eval(par, x3a, v0, tend), x0, v0)
+            v3a = p_boris(par, z, dt, F0, p_eval(par, qm0, x3a, v0, tend), qm0, x0, v0)
             x3 = [x3a[x] + dt * dt * Qx[3, 2] * a2[x] for x in range(dim)]
-            v3 = p_boris(par, z, dt, F0, p_eval(par, x3, v3a, tend), x0, v0)
+            v3 = p_boris(par, z, dt, F0, p_eval(par, qm0, x3, v3a, tend), qm0, x0, v0)
             want = [(x0, v0), (x1, v0), (x2, v2), (x3, v3)]
             for m in range(1, 4):
                 if (xn[m], vn[m]) != want[m]:
@@ -359,9 +386,9 @@ def rkn_oracle(L, pp, tab, meta, before, after):
                     fails.append(('velocity_verlet_table',))
                 elif meta['zero_kE']:
                     # velocity-Verlet form (rkn_velocity_verlet_form): fields independent of the velocity
-                    a = p_build(par, F0, v0, t0 + dt)
+                    a = p_build(par, F0, qm0, v0, t0 + dt)
                     xe = [x0[x] + dt * v0[x] + dt * dt * F(1, 2) * a[x] for x in range(dim)]
-                    ve = p_boris(par, z, dt, F0, p_eval(par, xe, v0, tend), x0, v0)
+                    ve = p_boris(par, z, dt, F0, p_eval(par, qm0, xe, v0, tend), qm0, x0, v0)
                     if after['uend'] != (xe, ve):
                         fails.append(('velocity_verlet_form',))
     if after['uend'] != (xn[M], vn[M]) or not after['uend_is_last']:
@@ -378,7 +405,7 @@ def get_full_f_check(ck):
     sw, P = L.sweep, L.prob
     a = acceleration(P.init)
     bad = []
-    for obj in (P.mk_u([1], [2]), P.mk_f(([1], [2])), a):
+    for obj in (P.mk_u([1], [2], [3], [4]), P.mk_f(([1], [2])), a):
         try:
             if sw.get_full_f(obj) is not obj:
                 bad.append('not identity on ' + type(obj).__name__)
@@ -419,7 +446,8 @@ def rkn_part(ck, rng, thorough):
         except Exception as e:
             ck.violation('real RungeKuttaNystrom sweeper raised %s: %s' % (type(e).__name__, e), {'which': which}, match={'kind': 'raise', 'sweeper': 'RKN', 'class': which})
             continue
-        key = ('RKN', meta['cls'] if which in ('RKN', 'Velocity_Verlet') else which, meta['M'], meta['dim'], meta['implicit'], meta['gsa'], meta['inject'], meta['zero_kE'])
+        key = ('RKN', meta['cls'] if which in ('RKN', 'Velocity_Verlet') else which, meta['M'], meta['dim'], meta['implicit'], meta['gsa'], meta['inject'], meta['zero_kE'],
+               meta['nodes_from_predict'])
         ck.case(key=key, nontrivial=True, sample=meta)
         fails = rkn_oracle(L, pp, tab, meta, before, after)
         replay = {'meta': meta, 'problem': {k: [str(v) for v in pp[k]] for k in PAR_KEYS}, 'nodes': [str(v) for v in L.sweep.coll.nodes],
